@@ -324,3 +324,22 @@ def gil_then_swallow(hold, n):
     """Keeps the interpreter lock for ``hold`` model seconds, then swallows every Exception for n seconds."""
     gil_sleeper(hold)
     return swallow(n)
+
+
+def slow_cleanup(loops, steps):
+    """Cooperative target whose clean-up takes a while but is interruptible Python code: a finally block of ``steps`` model seconds."""
+    import pyworkers.utils as utils
+    MARKS.append("enter")
+    try:
+        for i in range(loops):
+            _pt("loop")
+            utils.time.sleep(1)
+        MARKS.append("return")
+        return "loop-done"
+    finally:
+        MARKS.append("cleanup-begin")
+        for i in range(steps):
+            _pt("cleanup")
+            utils.time.sleep(1)
+        MARKS.append("cleanup-done")
+        MARKS.append("exit")
